@@ -66,6 +66,8 @@ Pipe(x, f, args) == N("pipe", "", Null, <<f, <<Arg(x)>> \o args>>)     \* x !> f
 Method(o, m, args) == N("method", m, StrV(Code(m)), <<o, args>>)
 MemberN(o, m) == N("member", m, StrV(Code(m)), <<o>>)
 Compr(kind, val, id, what, le, cond) == N("compr", kind, Null, <<val, id, what, le, cond>>)
+Index(c, i) == N("index", "", Null, <<c, i>>)
+Compr2(form, kind, val, id1, l1, id2, l2, cond) == N("compr2", form, Null, <<kind, val, id1, l1, id2, l2, cond>>)
 Prog(stmts) == Do(stmts)                        \* rendered as a bare top-level block
 
 -----------------------------------------------------------------------------
@@ -214,7 +216,49 @@ McParams == { <<"mc", c>> : c \in Idx(CConds) }
 McBuild(p) == Prog(<<Log(Compr("map", N("kv", "", Null, <<Var("x"), Bin("*", Var("x"), I(3))>>), "x", "values",
                                SetN(<<I(2), I(1)>>), CConds[p[2]]))>>)
 
-LoopParams == L1Params \cup L0Params \cup L2Params \cup L3Params \cup W1Params \cup IfParams \cup CpParams \cup McParams
+\* <<"c2", form, kind, l1, l2, c>>: product and `also for` comprehensions
+C2Forms == << "product", "parallel" >>
+C2Lists == << ListN(<<I(1), I(2)>>), ListN(<<I(10), I(20), I(30)>>), SetN(<<I(3), I(1)>>), ListN(<< >>), Lit(StrV(<<97, 98>>)) >>
+C2Conds == << None, Bin("!=", Var("x"), Var("y")) >>
+C2Params == { <<"c2", f, k, l1, l2, c>> : f \in Idx(C2Forms), k \in Idx(CKinds), l1 \in Idx(C2Lists), l2 \in Idx(C2Lists), c \in Idx(C2Conds) }
+C2Build(p) == Prog(<<Log(Compr2(C2Forms[p[2]], CKinds[p[3]], ListN(<<Var("x"), Var("y")>>), "x", C2Lists[p[4]], "y", C2Lists[p[5]], C2Conds[p[6]]))>>)
+\* <<"l4", where, ex, fin>>: exits through do/finally inside nested loops and
+\* from a loop in a function called inside a loop
+L4Ex == << Brk, Cont, Ret(I(8)), ErrN(S("a")), Log(I(0)) >>
+L4Params == { <<"l4", w, ex, f>> : w \in {1, 2, 3}, ex \in Idx(L4Ex), f \in {1, 2} }
+L4Build(p) ==
+  LET ex == L4Ex[p[3]]
+      guarded == Blk(<<If1(Bin("==", Var("y"), I(2)), ex), Log(Var("y"))>>, << >>, IF p[4] = 1 THEN << >> ELSE <<Log(I(7))>>)
+      inner == For(<<"y">>, "values", L123, guarded)
+  IN CASE p[2] = 1 -> InF(<<For(<<"x">>, "values", ListN(<<I(1), I(2)>>), Do(<<inner, Log(Var("x"))>>)), I(99)>>)
+       [] p[2] = 2 -> Prog(<<Def("g", Fn(<< >>, Do(<<inner, I(50)>>))),
+                             For(<<"x">>, "values", ListN(<<I(1), I(2)>>),
+                                 Do(<<Blk(<<Log(Call(Var("g"), << >>))>>, << <<All, Log(I(9))>> >>, << >>), Log(Var("x"))>>))>>)
+       [] p[2] = 3 -> InF(<<For(<<"x">>, "values", ListN(<<I(1), I(2), I(3)>>),
+                                Do(<<If1(Bin("==", Var("x"), I(2)), Blk(<<ex>>, << >>, <<Log(I(7))>>)), Log(Var("x")), Cont>>)),
+                            Log(I(6))>>)
+\* <<"l5", k>>: iteration order of sets and maps of strings, default `what`, index lookups in loops
+SA == S("a")  SB == S("b")  SC == S("c")
+L5Progs == << Prog(<<For(<<"x">>, "values", SetN(<<SB, SC, SA>>), Log(Var("x")))>>),
+              Prog(<<Def("t", MapN(<< <<SB, I(2)>>, <<SC, I(1)>>, <<SA, I(3)>> >>)),
+                     For(<<"k">>, "keys", Var("t"), Log(ListN(<<Var("k"), Index(Var("t"), Var("k"))>>))),
+                     For(<<"v">>, "values", Var("t"), Log(Var("v"))),
+                     Log(Compr("list", Var("x"), "x", "keys", Var("t"), None)),
+                     Log(Compr("list", Var("x"), "x", "values", Var("t"), None)),
+                     Log(Compr("list", Var("x"), "x", "", Var("t"), None))>>),
+              Prog(<<Def("t", ListN(<<I(5), I(6), I(7)>>)),
+                     Def("n", I(0)),
+                     While(Bin("<", Var("n"), I(3)), Do(<<Log(Index(Var("t"), Var("n"))), Asg("n", Bin("+", Var("n"), I(1)))>>)),
+                     Log(Index(Var("t"), I(-1))),
+                     Blk(<<Log(Index(Var("t"), I(3)))>>, << <<All, Log(I(9))>> >>, << >>)>>),
+              Prog(<<Def("t", ListN(<< >>)),
+                     For(<<"x">>, "values", L123, Asg("t", Bin("+", Var("t"), ListN(<<Fn(<< >>, Var("x"))>>)))),
+                     Blk(<<Log(Call(Index(Var("t"), I(0)), << >>))>>, << <<All, Log(I(9))>> >>, << >>)>>),
+              Prog(<<For(<<"x">>, "values", L123,
+                         IfN(<<Bin("==", Var("x"), I(1)), Bin("==", Var("x"), I(2))>>, <<Log(I(11)), Log(I(12))>>, <<Log(I(13))>>))>>) >>
+L5Params == { <<"l5", k>> : k \in Idx(L5Progs) }
+
+LoopParams == C2Params \cup L4Params \cup L5Params \cup L1Params \cup L0Params \cup L2Params \cup L3Params \cup W1Params \cup IfParams \cup CpParams \cup McParams
 
 (* ---- C03: scoping and argument binding ---- *)
 \* <<"s1", s1, s2>>: who sees which x
@@ -291,12 +335,59 @@ A3Build(p) == Prog(<<Def("a", Obj1),
                     Blk(<<Log(Method(Var(A3o[p[2]]), A3m[p[3]], A3l[p[4]]))>>, << <<All, Log(S("c"))>> >>, << >>),
                     Log(MemberN(Var(A3o[p[2]]), "n"))>>)
 
-ScopeParams == S1Params \cup S2Params \cup S3Params \cup S4Params \cup S5Params \cup A1Params \cup A2Params \cup A3Params
+\* <<"s6", k>>: defaults per call, four scope levels, closures over variables,
+\* composition, mutual recursion, handler selection across frames
+S6Progs == <<
+  \* defaults are evaluated at every call, in the callee scope
+  Prog(<<Def("k", I(1)), Def("f", Fn(<<ParamD("a", Var("k"))>>, Var("a"))),
+         Log(Call(Var("f"), << >>)), Asg("k", I(2)), Log(Call(Var("f"), << >>)),
+         Def("g", Fn(<<Param("a"), ParamD("b", Bin("*", Var("a"), I(2)))>>, ListN(<<Var("a"), Var("b")>>))),
+         Log(Call(Var("g"), <<Arg(I(1))>>)), Log(Call(Var("g"), <<Arg(I(5))>>)), Log(Call(Var("g"), <<Arg(I(5)), Arg(I(6))>>))>>),
+  \* four levels of shadowing; assignment reaches the nearest binding
+  Prog(<<Def("x", I(1)),
+         Def("f", Fn(<< >>, Do(<<Def("x", I(2)),
+             Def("g", Fn(<< >>, Do(<<Def("h", Fn(<< >>, Do(<<Asg("x", Bin("+", Var("x"), I(10))), Def("x", I(4)), Log(Var("x")), Var("x")>>))),
+                                    Log(Call(Var("h"), << >>)), Log(Var("x")), Var("x")>>))),
+             Log(Call(Var("g"), << >>)), Log(Var("x")), Var("x")>>))),
+         Log(Call(Var("f"), << >>)), Log(Var("x"))>>),
+  \* a closure sees the variable, not the value it had
+  Prog(<<Def("x", I(1)), Def("f", Fn(<< >>, Var("x"))), Asg("x", I(2)), Log(Call(Var("f"), << >>)),
+         Def("x", I(3)), Log(Call(Var("f"), << >>))>>),
+  \* composition
+  Prog(<<Def("c", Fn(<<Param("f"), Param("g")>>, Fn(<<Param("x")>>, Call(Var("f"), <<Arg(Call(Var("g"), <<Arg(Var("x"))>>))>>)))),
+         Def("a", Fn(<<Param("x")>>, Bin("+", Var("x"), I(1)))), Def("b", Fn(<<Param("x")>>, Bin("*", Var("x"), I(2)))),
+         Log(Call(Call(Var("c"), <<Arg(Var("a")), Arg(Var("b"))>>), <<Arg(I(5))>>)),
+         Log(Call(Call(Var("c"), <<Arg(Var("b")), Arg(Var("a"))>>), <<Arg(I(5))>>))>>),
+  \* mutual recursion through names defined later; recursion depth 4
+  Prog(<<Def("f", Fn(<<Param("n")>>, If2(Bin("==", Var("n"), I(0)), Lit(Bool(TRUE)), Call(Var("g"), <<Arg(Bin("-", Var("n"), I(1)))>>)))),
+         Def("g", Fn(<<Param("n")>>, If2(Bin("==", Var("n"), I(0)), Lit(Bool(FALSE)), Call(Var("f"), <<Arg(Bin("-", Var("n"), I(1)))>>)))),
+         Log(Call(Var("f"), <<Arg(I(4))>>)), Log(Call(Var("f"), <<Arg(I(3))>>)),
+         Def("h", Fn(<<Param("n"), ParamD("a", I(1))>>, If2(Bin("<=", Var("n"), I(1)), Var("a"),
+                       Call(Var("h"), <<Arg(Bin("-", Var("n"), I(1))), Arg(Bin("*", Var("a"), Var("n")))>>)))),
+         Log(Call(Var("h"), <<Arg(I(4))>>))>>),
+  \* parameters shadow globals; a parameter assignment stays in the call frame
+  Prog(<<Def("n", I(7)), Def("f", Fn(<<Param("n")>>, Do(<<Asg("n", Bin("+", Var("n"), I(1))), Var("n")>>))),
+         Log(Call(Var("f"), <<Arg(I(1))>>)), Log(Var("n")), Log(Call(Var("f"), <<Arg(Var("n"))>>)), Log(Var("n"))>>),
+  \* named arguments in any order with defaults referring to earlier parameters
+  Prog(<<Def("f", Fn(<<Param("a"), ParamD("b", Bin("+", Var("a"), I(1))), ParamD("c", Bin("+", Var("b"), I(1)))>>,
+                     ListN(<<Var("a"), Var("b"), Var("c")>>))),
+         Log(Call(Var("f"), <<Arg(I(1))>>)), Log(Call(Var("f"), <<NArg("c", I(9)), NArg("a", I(1))>>)),
+         Log(Call(Var("f"), <<Arg(I(1)), NArg("c", I(9))>>)), Log(Call(Var("f"), <<NArg("b", I(5)), NArg("a", I(2))>>)),
+         Log(Pipe(I(3), Var("f"), <<NArg("c", I(0))>>))>>),
+  \* the loop variable lives in the frame that runs the loop and is gone afterwards
+  Prog(<<Def("x", I(100)),
+         Def("f", Fn(<< >>, Do(<<For(<<"x">>, "values", ListN(<<I(1), I(2)>>), Log(Var("x"))), Var("x")>>))),
+         Log(Call(Var("f"), << >>)), Log(Var("x"))>>) >>
+S6Params == { <<"s6", k>> : k \in Idx(S6Progs) }
+
+ScopeParams == S6Params \cup S1Params \cup S2Params \cup S3Params \cup S4Params \cup S5Params \cup A1Params \cup A2Params \cup A3Params
 
 Build(p) ==
   CASE p[1] = "e1" -> E1Build(p) [] p[1] = "e2" -> E2Build(p) [] p[1] = "e3" -> E3Build(p)
     [] p[1] = "l1" -> L1Build(p) [] p[1] = "l0" -> L0Build(p) [] p[1] = "l2" -> L2Build(p)
     [] p[1] = "l3" -> L3Progs[p[2]] [] p[1] = "w1" -> W1Build(p) [] p[1] = "if" -> IfBuild(p)
+    [] p[1] = "c2" -> C2Build(p) [] p[1] = "l4" -> L4Build(p) [] p[1] = "l5" -> L5Progs[p[2]]
+    [] p[1] = "s6" -> S6Progs[p[2]]
     [] p[1] = "cp" -> CpBuild(p) [] p[1] = "mc" -> McBuild(p)
     [] p[1] = "s1" -> S1Build(p) [] p[1] = "s2" -> S2Build(p) [] p[1] = "s3" -> S3Build(p)
     [] p[1] = "s4" -> S4Build(p) [] p[1] = "s5" -> S5Build(p)
